@@ -212,20 +212,23 @@ def exec_equivariance(sc):
         r1 = solve_natural(b1, sc, save_at)
         r2 = solve_natural(b2, sc, save_at)
         s1, s2 = r1.sol, r2.sol
-        borderline = any(abs(e[3] - 1.0) < 1e-6 for e in r1.err.log)
+        borderline = any(abs(e[3] - 1.0) < 1e-5 for e in r1.err.log)
         h1 = [(e[0], e[1], e[2] >= 1.0) for e in r1.err.log]
         h2 = [(e[0], e[1], e[2] >= 1.0) for e in r2.err.log]
-        same = (len(h1) == len(h2) and all(a[2] == b_[2] and abs(a[1] - b_[1]) <= 1e-9 * abs(a[1]) for a, b_ in zip(h1, h2)))
+        # for c = 2^k the twin is bit-identical; for general c the error estimates agree to rounding x residual
+        # conditioning, hence the step sizes only to about 1e-8
+        RT = 1e-12 if pow2 else 1e-6
+        same = (len(h1) == len(h2) and all(a[2] == b_[2] and abs(a[1] - b_[1]) <= RT * abs(a[1]) for a, b_ in zip(h1, h2)))
         if not same:
             if borderline and not pow2:
                 incon.append("borderline")
             else:
-                k = next((i for i, (a, b_) in enumerate(zip(h1, h2)) if a[2] != b_[2] or abs(a[1] - b_[1]) > 1e-9 * abs(a[1])), min(len(h1), len(h2)))
+                k = next((i for i, (a, b_) in enumerate(zip(h1, h2)) if a[2] != b_[2] or abs(a[1] - b_[1]) > RT * abs(a[1])), min(len(h1), len(h2)))
                 viol.append({"inv": "EQUIV-history", "msg": f"rescaling the prior's base scale by c={c:.6g} changed the accepted/rejected step sequence at attempt {k}"})
         else:
             eps_ = [abs(a[3] / b_[3] - 1.0) for a, b_ in zip(r1.err.log, r2.err.log)]
             stats["max_error_power_rel_diff"] = max(eps_)
-            if max(eps_) > 1e-8:
+            if max(eps_) > (1e-12 if pow2 else 1e-6):
                 viol.append({"inv": "EQUIV-history", "msg": f"acceptance quantity changed under rescaling of the base scale: rel {max(eps_):.2e}"})
         hmean = float(onp.mean([e[1] for e in r1.err.log]))
         ab = r1.rec.abstract_string()
@@ -242,7 +245,7 @@ def exec_equivariance(sc):
         calib = cfg["calib"]
         o1, o2 = onp.asarray(s1.output_scale, dtype=float), onp.asarray(s2.output_scale, dtype=float)
         N = onp.asarray(s1.t).shape[0]
-        tol = 1e-13 if pow2 else 1e-8
+        tol = 1e-13 if pow2 else 1e-7
         for i in range(N):
             m1, P1 = embed.normal_np_at(s1.u, i)
             m2, P2 = embed.normal_np_at(s2.u, i)
